@@ -6,6 +6,7 @@ package gcc
 import (
 	"container/list"
 	"errors"
+	"fmt"
 	"sync"
 	"time"
 
@@ -100,6 +101,14 @@ func (p *LeakyBucketPacer) getTargetBitrate() int {
 // Write sends a packet with header and payload the a previously registered
 // stream.
 func (p *LeakyBucketPacer) Write(header *rtp.Header, payload []byte, attributes interceptor.Attributes) (int, error) {
+	p.writerLock.RLock()
+	_, known := p.ssrcToWriter[header.SSRC]
+	p.writerLock.RUnlock()
+	if !known {
+		// without a registered writer the packet could only be dropped when it reaches the head of the queue
+		return 0, fmt.Errorf("%w: %v", ErrUnknownStream, header.SSRC)
+	}
+
 	buf, ok := p.pool.Get().(*[]byte)
 	if !ok {
 		return 0, errLeakyBucketPacerPoolCastFailed
